@@ -347,6 +347,7 @@ def rule_R15(text, fired):
 R19_RX = re.compile(r'\bfor\s*\(\s*(\w+)\s*,\s*(\w+|\([^()]*\))\s*\)\s*in\s+([\w\.]+?)\.iter\(\)\.enumerate\(\)\s*\{')
 
 # `for PAT in &E {` : same rewrite with the index named i_PAT
+R19C_RX = re.compile(r'\bfor\s+(\([^()]*\))\s+in\s+([\w\.]+?)\.iter\(\)\s*\{')
 R19B_RX = re.compile(r'\bfor\s+(\w+)\s+in\s+&([\w\.]+)\s*\{')
 
 
@@ -354,10 +355,11 @@ def rule_R19(text, fired):
     """`for (I, PAT) in E.iter().enumerate() { B }` ->
     `{ let mut I: usize = 0; while I < E.len() { let PAT = ELEM; B I += 1; } }` where ELEM is `&E[I]` for an identifier
     pattern and `E.entry_at(I)` for a tuple pattern (map entries in iteration order); `for PAT in &E { B }` likewise with the
-    index named i_PAT.  Refuses a body with `continue`
+    index named i_PAT;
+    `for (K, V) in E.iter() { B }` (map entries) with the index named i_entry.  Refuses a body with `continue`
     (the increment would be skipped).  Trusted: slice::Iter + Enumerate yield (i, &E[i]) for i in 0..E.len()."""
     while True:
-        m = R19_RX.search(text) or R19B_RX.search(text)
+        m = R19_RX.search(text) or R19B_RX.search(text) or R19C_RX.search(text)
         if not m:
             return text
         ct = rs.code_toks(rs.tokenize(text[m.end() - 1:]))
@@ -367,6 +369,9 @@ def rule_R19(text, fired):
             raise Refuse('R19: continue inside an enumerate loop')
         if m.re is R19_RX:
             i, pat, e = m.group(1), m.group(2), m.group(3)
+        elif m.re is R19C_RX:
+            pat, e = m.group(1), m.group(2)
+            i = 'i_entry'
         else:
             pat, e = m.group(1), m.group(2)
             i = 'i_' + pat
@@ -376,7 +381,39 @@ def rule_R19(text, fired):
         _count(fired, 'R19')
 
 
+# ---- R20: serde serializer monomorphisation -------------------------------------------------------
+def rule_R20(text, fired):
+    """`fn serialize<S: Serializer>(&self, serializer: S) -> Result<S::Ok, S::Error>` -> the model serializer of the unit:
+    `S` -> `Ser`, `S::Ok` -> `Out`, `S::Error` -> `SerErr`.  Trusted: the unit's `Ser`/`MapSer`/`SeqSer` state what serde's data
+    model does with each call (append an entry / element, finish the map / sequence)."""
+    for rx, rep in ((r'<\s*S\s*:\s*Serializer\s*>', ''), (r'\bS::Ok\b', 'Out'), (r'\bS::Error\b', 'SerErr'),
+                    (r'\bserializer\s*:\s*S\b', 'serializer: Ser')):
+        text, n = re.subn(rx, rep, text)
+        _count(fired, 'R20', n)
+    return text
+
+
+# ---- R21: while let ------------------------------------------------------------------------------
+R21_RX = re.compile(r'\bwhile\s+let\s+(.+?)\s*=\s*([^={}]+?)\s*\{')
+
+
+def rule_R21(text, fired):
+    """`while let PAT = EXPR { B }` -> `loop { match EXPR { PAT => { B } _ => { break; } } }` (the definition of `while let`)."""
+    while True:
+        m = R21_RX.search(text)
+        if not m:
+            return text
+        ct = rs.code_toks(rs.tokenize(text[m.end() - 1:]))
+        close = m.end() - 1 + ct[rs.match_close(ct, 0)].start
+        body = text[m.end():close]
+        rep = f'loop {{ match {m.group(2)} {{ {m.group(1)} => {{{body}}} _ => {{ break; }} }} }}'
+        text = text[:m.start()] + rep + text[close + 1:]
+        _count(fired, 'R21')
+
+
 RULES = {
+    'R21': rule_R21,
+    'R20': rule_R20,
     'R19': rule_R19,
     'R18': rule_R18,
     'R10': rule_R10,
@@ -391,7 +428,7 @@ RULES = {
     'R9': rule_R9,
     'R13': rule_R13,
 }
-ORDER = ['R19', 'R10', 'R2', 'R9', 'R6b', 'R6', 'R7', 'R13', 'R14', 'R15', 'R16', 'R18', 'R5']
+ORDER = ['R21', 'R19', 'R20', 'R10', 'R2', 'R9', 'R6b', 'R6', 'R7', 'R13', 'R14', 'R15', 'R16', 'R18', 'R5']
 
 
 def apply_rules(text, active, fired, extra_subs=()):
@@ -462,18 +499,20 @@ def fix_type_decl(text, fired, opts):
         out = []
         depth = 0
         expect_field = False
+        in_body = False
         for t in toks:
             if t.kind == 'punct' and t.text in '{([<':
                 depth += 1
                 out.append(t.text)
                 if t.text == '{' and depth == 1:
                     expect_field = True
+                    in_body = True
                 continue
             if t.kind == 'punct' and t.text in '})]>':
                 depth -= 1
                 out.append(t.text)
                 continue
-            if t.kind == 'punct' and t.text == ',' and depth == 1:
+            if t.kind == 'punct' and t.text == ',' and depth == 1 and in_body:
                 out.append(t.text)
                 expect_field = True
                 continue
